@@ -16,6 +16,9 @@ pub struct SubjectDef {
     /// callbacks family: an error callback is configured
     #[serde(default)]
     pub error_cb: bool,
+    /// str-mode definition whose utf8 = false rendering is accepted too: the module holds the twin `T2` (C12)
+    #[serde(default)]
+    pub twin: bool,
 }
 
 #[derive(Clone, Debug, Serialize, Deserialize)]
@@ -108,7 +111,7 @@ pub fn render_module(idx: usize, sd: &SubjectDef) -> String {
     let skip_log = sd.skip_log;
     let cb = |leaf: usize, _p: &crate::spec::PatSpec| if skip_log && leaf < sd.def.skips.len() { Some(SKIP_LOG_CB.to_string()) } else { None };
     let mut enums = vec![("T", sd.def.utf8)];
-    if sd.def.utf8 {
+    if sd.def.utf8 && sd.twin {
         // bytes-mode twin of a str-mode definition (C12)
         enums.push(("T2", false));
     }
@@ -125,7 +128,7 @@ pub fn render_module(idx: usize, sd: &SubjectDef) -> String {
     s.push_str(&format!("        fn index(&self) -> usize {{ {idx} }}\n"));
     s.push_str("        fn lex(&self, which: u8, src: &[u8], mode: Mode) -> Obs {\n            match which {\n");
     s.push_str("                0 => subject_rt::lex_generic::<T>(<<T as Logos<'_>>::Source as Src>::from_bytes(src), mode),\n");
-    if sd.def.utf8 {
+    if sd.def.utf8 && sd.twin {
         s.push_str("                1 => subject_rt::lex_generic::<T2>(<<T2 as Logos<'_>>::Source as Src>::from_bytes(src), mode),\n");
     }
     s.push_str("                _ => unreachable!(),\n            }\n        }\n    }\n}\n");
@@ -328,6 +331,7 @@ pub fn stress_defs() -> Vec<SubjectDef> {
         skip_log: false,
         has_value: vec![],
         error_cb: false,
+        twin: true,
     });
     // 1: adversarial nested / overlapping repetitions
     out.push(SubjectDef {
@@ -341,6 +345,7 @@ pub fn stress_defs() -> Vec<SubjectDef> {
         skip_log: false,
         has_value: vec![],
         error_cb: false,
+        twin: true,
     });
     // 2: byte mode, overlapping keyword / identifier sets and a long literal
     out.push(SubjectDef {
@@ -354,6 +359,7 @@ pub fn stress_defs() -> Vec<SubjectDef> {
         skip_log: false,
         has_value: vec![],
         error_cb: false,
+        twin: true,
     });
     // 3: callbacks family shape: skipping through callbacks (Skip and Filter::Skip) and a skip pattern with a callback
     let mut sk = rx("-");
@@ -370,6 +376,7 @@ pub fn stress_defs() -> Vec<SubjectDef> {
         skip_log: false,
         has_value: vec![false, false, false, true, false],
         error_cb: false,
+        twin: false,
     });
     out
 }
